@@ -630,13 +630,23 @@ namespace sim
 			// +----+------+------+----------+----------+----------+
 
 			char const* buf = m_udp_buffer.data();
-			if (buf[2] != 0) std::printf("fragment != 0, not supported\n");
 
-			int const atyp = buf[3];
-			if (atyp == 3)
+			// the header must be there in full: 4 bytes, then 4 address bytes or a
+			// length-prefixed name, then the port
+			int const atyp = bytes_transferred < 4 ? 0 : buf[3];
+			std::size_t const header_size = atyp == 1 ? 10
+				: (atyp == 3 && bytes_transferred >= 5) ? 7 + std::size_t(std::uint8_t(buf[4]))
+				: 5;
+			if (bytes_transferred < header_size)
 			{
+				std::printf("truncated UDP ASSOCIATE header, dropping datagram\n");
+			}
+			else if (atyp == 3)
+			{
+				if (buf[2] != 0) std::printf("fragment != 0, not supported\n");
+
 				// hostname
-				int const len = buf[4];
+				int const len = std::uint8_t(buf[4]);
 
 				buf += 5;
 				bytes_transferred -= 5;
@@ -657,38 +667,41 @@ namespace sim
 					m_udp_associate.send_to(boost::asio::buffer(buf, bytes_transferred)
 						, udp::endpoint(it->second, port), 0, err);
 					if (err) std::printf("send_to failed: %s\n", err.message().c_str());
-					return;
 				}
+				else
+				{
+					std::vector<char> forward_buffer(buf, buf + bytes_transferred);
 
-				std::vector<char> forward_buffer(buf, buf + bytes_transferred);
-
-				m_udp_resolver.async_resolve(hostname.c_str(), std::to_string(port).c_str()
-					, [buf=std::move(forward_buffer), hostname, this]
-						(error_code const& ec, asio::ip::udp::resolver::results_type ips)
-					{
-						if (ec)
+					m_udp_resolver.async_resolve(hostname.c_str(), std::to_string(port).c_str()
+						, [buf=std::move(forward_buffer), hostname, this]
+							(error_code const& ec, asio::ip::udp::resolver::results_type ips)
 						{
-							std::printf("resolve failed: %s\n", ec.message().c_str());
-							return;
-						}
-
-						for (auto const& ip : ips)
-						{
-							auto const target = ip.endpoint();
-							error_code err;
-							m_udp_associate.send_to(boost::asio::buffer(buf)
-								, target, 0, err);
-							if (!err)
+							if (ec)
 							{
-								m_name_mapping.insert({target.address(), hostname});
-								break;
+								std::printf("resolve failed: %s\n", ec.message().c_str());
+								return;
 							}
-							std::printf("send_to failed: %s\n", err.message().c_str());
-						}
-					});
+
+							for (auto const& ip : ips)
+							{
+								auto const target = ip.endpoint();
+								error_code err;
+								m_udp_associate.send_to(boost::asio::buffer(buf)
+									, target, 0, err);
+								if (!err)
+								{
+									m_name_mapping.insert({target.address(), hostname});
+									break;
+								}
+								std::printf("send_to failed: %s\n", err.message().c_str());
+							}
+						});
+				}
 			}
 			else if (atyp == 1)
 			{
+				if (buf[2] != 0) std::printf("fragment != 0, not supported\n");
+
 				// IPv4
 				std::uint32_t addr = buf[4] & 0xff;
 				addr <<= 8;
